@@ -14,9 +14,15 @@ V = "/verif"
 # (index bases -> C19, unequal allocators -> C10): the sibling's quick check is run as well
 SIBLINGS = {"C01-r2-1": ["C19"], "C05-r2-1": ["C19"], "C06-r2-1": ["C19"], "C08-r2-1": ["C10"],
             "C03-r3-2": ["C07"], "C11-r3-2": ["C09"], "C20-r3-2": ["C09"],
-            "C04-r4-2": ["C10"], "C05-r4-2": ["C02"], "C06-r4-2": ["C10"], "C08-r4-2": ["C06"]}
+            "C04-r4-2": ["C10"], "C05-r4-2": ["C02"], "C06-r4-2": ["C10"], "C08-r4-2": ["C06"],
+            "C03-r5-1": ["C07"], "C03-r5-2": ["C04"], "C09-r5-2": ["C10"], "C19-r5-2": ["C12"], "C20-r5-1": ["C05"]}
 # seeded changes whose demonstration lies outside the library's documented domain (not demanded of any check)
-OUT_OF_DOMAIN = {"C08-r4-1": "the change only manifests when an array is assigned a view of ITSELF (A = A({1,4},{2,5})); the README documents "
+OUT_OF_DOMAIN = {"C15-r5-1": "the change only manifests when input and output are views of the SAME memory with different strides (in-place transposition through "
+                             "the four-argument dft); neither the adaptor's README nor the library's documents such aliasing (the library's README calls overlapping "
+                             "sources and destinations undefined), so no check demands it",
+                 "C15-r5-2": "NOT REACHED, not out of domain: the change needs a stride of 2^31 elements or more (a view of an array of >= 32 GiB); the replayer logs "
+                             "whole buffers before and after each call and works with arrays of at most a few hundred elements. Recorded as a limit of the bounded model in DESIGN.md",
+                 "C08-r4-1": "the change only manifests when an array is assigned a view of ITSELF (A = A({1,4},{2,5})); the README documents "
                              "assignment with overlapping right- and left-hand sides as undefined behaviour ('Copy and assignment (and aliasing)')"}
 ids = sys.argv[1:] or sorted(os.listdir(os.path.join(V, "seeded")))
 for sid in ids:
